@@ -599,6 +599,20 @@ pub fn run(ctx: &mut Ctx) {
     ctx.campaign("nodes", CampaignCfg::new(t.pick(320, 6_000)).shards(16).shrink_iters(6), strategy, move |c: &Case| run_case_with(c, avoid));
     ctx.campaign("channels", CampaignCfg::new(t.pick(30_000, 600_000)).shards(16), raw_strategy, run_raw);
     let avoid_g = ctx.avoid(crate::props::c05::SIG_G) && ctx.is_generate();
+    // the Transport trait lets accept() fail (the TCP transport never does): the manager rolls the connection back and the
+    // application, which was never told of it, must not be told that it closed
+    ctx.campaign(
+        "manager-accept-faults",
+        CampaignCfg::new(t.pick(20_000, 1_000_000)).shards(16),
+        || {
+            use proptest::strategy::Strategy as _;
+            crate::f3::history_strategy(40, false, 8, false).prop_map(|mut h| {
+                h.accept_faults = true;
+                h
+            })
+        },
+        move |h: &crate::f3::History| run_manager_history(h, avoid_g),
+    );
     ctx.campaign("manager-histories", CampaignCfg::new(t.pick(40_000, 2_000_000)).shards(16), || crate::f3::history_strategy(40, false, 8, false), move |h: &crate::f3::History| run_manager_history(h, avoid_g));
     let depth = t.pick(4u32, 5);
     ctx.enumerate_indexed("manager-small-scope-exhaustive", crate::f3::small_space_size(depth), 16, crate::f3::small_history, move |h: &crate::f3::History| run_manager_history(h, avoid_g));
